@@ -423,8 +423,19 @@ def _tmpdir() -> str:
     return _TMP
 
 
+def clear_cache() -> None:
+    """Drop cached exports (the thorough tiers work chunk by chunk to bound memory)."""
+    _CACHE.clear()
+
+
+def chunks(plan: list, n: int):
+    for i in range(0, len(plan), n):
+        yield plan[i:i + n]
+
+
 def cleanup() -> None:
     global _TMP
+    _CACHE.clear()
     if _TMP is not None:
         shutil.rmtree(_TMP, ignore_errors=True)
         _TMP = None
